@@ -9,7 +9,7 @@ from __future__ import annotations
 
 import ast
 
-from ..flow import flow_of, path_of
+from ..flow import deref, flow_of, path_of
 from ..loader import FUNC, AnalysisError, dotted, last_name, loc, short, walk_local, enclosing_stmt
 from ..util import AMS, ASE, CP2K, ENGBASE, GROMACS, LAMMPS, TIS, TURTLE, kwarg
 from ..variants import B, K
@@ -654,6 +654,45 @@ def r1611(ctx):
         ctx.bad(rid, st, f"reset_momentum: {why}", construct="reset_momentum: " + short(corr, 60))
 
 
+def r1612(ctx):
+    """Velocity generation by the external program uses the engine's current temperature. GROMACS:
+    the zero-step input `genvel.mdp` carries `gen-temp = self.temperature` and is re-used when the
+    file exists; that is sound only because it lives in the per-job scratch directory
+    (`self.exe_dir`, emptied by clean_up() for every job). A re-use-if-present file whose content
+    depends on engine parameters must be rooted in exe_dir - anywhere else it is a cache that
+    survives a change of the temperature."""
+    rid = "R-16.12"
+    tree = ctx.tree
+    n = 0
+    for m, q, f in tree.all_funcs([GROMACS]):
+        fl = None
+        for st in walk_local(f):
+            if not isinstance(st, ast.If):
+                continue
+            tests = [c for c in ast.walk(st.test) if isinstance(c, ast.Call) and last_name(c) in ("isfile", "exists") and c.args and isinstance(c.args[0], ast.Name)]
+            if not tests:
+                continue
+            pname = tests[0].args[0].id
+            # the branch taken when the file is missing writes it from engine parameters
+            neg = st.orelse if not (isinstance(st.test, ast.UnaryOp) and isinstance(st.test.op, ast.Not)) else st.body
+            writes = [c for b in neg for c in ast.walk(b) if isinstance(c, ast.Call) and any(isinstance(a, ast.Name) and a.id == pname for a in c.args)]
+            if not writes:
+                continue
+            dep_self = sorted({ast.unparse(x) for b in neg for x in ast.walk(b) if isinstance(x, ast.Attribute) and isinstance(x.value, ast.Name) and x.value.id == "self" and x.attr in ("temperature", "timestep", "subcycles", "kb", "_beta")})
+            if not dep_self:
+                continue
+            n += 1
+            fl = fl or flow_of(f)
+            pe, _ = deref(fl, tests[0].args[0], fl.cfg.node_of(st.test))
+            root = pe.args[0] if isinstance(pe, ast.Call) and last_name(pe) == "join" and pe.args else None
+            if root is not None and ast.unparse(root) == "self.exe_dir":
+                ctx.ok(rid, st, f"{q}: `{pname}` (content depends on {dep_self}) is re-used only within the per-job scratch directory self.exe_dir")
+            else:
+                ctx.bad(rid, st, f"{q} re-uses `{short(pe, 50)}` when it exists although its content depends on {dep_self} and it is not rooted in the per-job scratch directory: once written it is never refreshed, so a new engine / run on the same input directory with another temperature still generates velocities at the old one (<m v^2> = kB * T_old)", construct=f"{q}: persistent re-use of {short(pe, 50)}")
+    if n == 0:
+        raise AnalysisError("R-16.12: the re-use-if-present idiom of the velocity-generation input was not found in gromacs.py")
+
+
 def run(ctx):
     ctx.rule("R-16.1", "positions, box and identities written are exactly those read from the dumped frame; only velocities are regenerated", floor=14)
     ctx.rule("R-16.2", "the regenerated frame goes to a fresh file under exe_dir; system.config re-pointed; caller passes a copy", floor=10)
@@ -665,6 +704,8 @@ def run(ctx):
     ctx.rule("R-16.6", "positional role agreement in velocity regeneration: (dek, kin_new), (vel, sigma_v), (xyz, vel, box, names) and writer arguments sit where the callee returns / expects them", floor=8)
     ctx.rule("R-16.11", "momentum reset: sum over particles of mass * velocity (product inside the reduction) divided by the total mass", floor=1)
     ctx.attempt(r1611, ctx)
+    ctx.rule("R-16.12", "GROMACS-generated velocities use the engine's current temperature: the re-used genvel input (content depends on self.temperature) lives in the per-job scratch directory", floor=1)
+    ctx.attempt(r1612, ctx)
     ctx.rule("R-16.10", "the kinetic energies whose difference is reported are computed by the same expression before and after the regeneration (same unit, same mass table)", floor=3)
     ctx.rule("R-16.9", "a callee handed an ensemble dictionary looks up only keys that record has (velocity settings such as zero_momentum live in its tis_set; a .get() on the ensemble itself silently yields the default)", floor=8)
     from .shared import ensemble_record_agreement
@@ -702,6 +743,7 @@ def run(ctx):
 
 
 VARIANTS = [
+    B("c16-genvel-input-cached-in-input-dir", GROMACS, '        gen_mdp = os.path.join(self.exe_dir, "genvel.mdp")', '        gen_mdp = os.path.join(self.input_path, "genvel.mdp")', "R-16.12", control=True, why="seeded C16_k"),
     B("c16-sigma-reciprocal-of-integer-masses", ENGBASE, "            sigma_v = np.sqrt(kbt * (1 / mass))", "            sigma_v = np.sqrt(kbt * np.reciprocal(mass))", "R-16.8", control=True, why="seeded C16_j"),
     K("c16-keep-sigma-reciprocal-of-float-masses", ENGBASE, "            sigma_v = np.sqrt(kbt * (1 / mass))", "            sigma_v = np.sqrt(kbt * np.reciprocal(mass.astype(float)))"),
     K("c16-keep-sigma-quotient", ENGBASE, "            sigma_v = np.sqrt(kbt * (1 / mass))", "            sigma_v = np.sqrt(kbt / mass)"),
